@@ -3,29 +3,29 @@ import SignaloModel.Proofs.DequeMin
 /-!
 # C04 — Moving min/max/bounds equal the extrema of the last min(k,N) samples
 
-Property theorems for C04 (statements are printed by `#check`, axioms by `#check @Registry.max_registry_correct
+The property theorems for C04: `#check` prints each statement, `#print axioms` its axioms;
+`bin/check C04` re-elaborates this file on every run and audits the axiom lists.
+-/
+open SignaloModel
+
+#check @Registry.max_registry_correct
 #check @Registry.min_registry_correct
 #check @Registry.extremum_of_isMax
 #check @Registry.extremum_of_isMin
 #check @Registry.bounds_registry_correct
-#print axioms`;
-`bin/check C04` re-elaborates this file on every run and audits the axiom lists).
--/
-open SignaloModel
-
 #check @Deque.max_correct
 #check @Deque.min_correct
 #check @Deque.runB_correct
 #check @Deque.stepU_correct
 #check @Deque.tick_rel
 
-#print axioms Deque.max_correct
-#print axioms Deque.min_correct
-#print axioms Deque.runB_correct
-#print axioms Deque.stepU_correct
-#print axioms Deque.tick_rel
 #print axioms Registry.max_registry_correct
 #print axioms Registry.min_registry_correct
 #print axioms Registry.extremum_of_isMax
 #print axioms Registry.extremum_of_isMin
 #print axioms Registry.bounds_registry_correct
+#print axioms Deque.max_correct
+#print axioms Deque.min_correct
+#print axioms Deque.runB_correct
+#print axioms Deque.stepU_correct
+#print axioms Deque.tick_rel
